@@ -67,6 +67,8 @@ pub fn plan(prop: &str, tier: &str) -> Plan {
     let q = tier == "quick";
     let mut profile = Profile {
         round_trip: prop != "C17",
+        // clear() leads back to an arena that must behave like the initial one: one more call per state
+        clear_op: true,
         ..Default::default()
     };
     let mut judge = JudgeCfg {
@@ -188,8 +190,11 @@ fn cmd_sweep(args: &[String]) -> i32 {
     let known = known::Known::load(&format!("{VERIF}/known_findings.jsonl"));
     let cap_s: u64 = arg(args, "--cap-s")
         .and_then(|s| s.parse().ok())
-        .unwrap_or(if tier == "quick" { 45 } else { 1500 });
+        .unwrap_or(if tier == "quick" { 600 } else { 1500 });
+    // the cap is there to stop a runaway search, not to shape the tier (a quick check takes seconds);
+    // every stage below gets a deadline of its own, so that a slow stage does not starve the next
     let deadline = Instant::now() + Duration::from_secs(cap_s);
+    let stage_deadline = || Instant::now() + Duration::from_secs(cap_s);
     let mut reports = Vec::new();
     let mut free_counts = (0u64, 0u64);
     for (n, a) in pl.bounds.clone() {
@@ -230,7 +235,7 @@ fn cmd_sweep(args: &[String]) -> i32 {
     // boundary windows: the same judges, started from arenas whose first slot is at the end of
     // its generation range (the one regime the ordinary sweep cannot reach by depth)
     if !flag(args, "--no-windows") && prop != "C17" && arg(args, "--bounds").is_none()
-        && !reports.iter().any(|r| r.violations.iter().any(|v| !v.known) || r.cap_hit.is_some())
+        && !reports.iter().any(|r| r.violations.iter().any(|v| !v.known))
     {
         if let Some(r) = deep::find_retirement(70_000) {
             let mut inits = Vec::new();
@@ -252,7 +257,7 @@ fn cmd_sweep(args: &[String]) -> i32 {
                 judge: pl.judge.clone(),
                 inits,
                 threads: threads(),
-                deadline: Some(deadline),
+                deadline: Some(stage_deadline()),
                 state_cap: 40_000_000,
                 seed: seed(),
                 validate_paths: true,
@@ -272,7 +277,7 @@ fn cmd_sweep(args: &[String]) -> i32 {
     }
     // larger forests, one step: every tree shape up to 7 (8) nodes x every operation
     if !flag(args, "--no-shapes") && prop != "C17" && arg(args, "--bounds").is_none()
-        && !reports.iter().any(|r| r.violations.iter().any(|v| !v.known) || r.cap_hit.is_some())
+        && !reports.iter().any(|r| r.violations.iter().any(|v| !v.known))
     {
         // properties whose state judges are expensive per state take smaller shapes
         let heavy = matches!(prop.as_str(), "C02" | "C10" | "C13" | "C16");
@@ -288,7 +293,7 @@ fn cmd_sweep(args: &[String]) -> i32 {
             judge: pl.judge.clone(),
             inits: vec![Init::New],
             threads: threads(),
-            deadline: Some(deadline),
+            deadline: Some(stage_deadline()),
             state_cap: 40_000_000,
             seed: seed(),
             validate_paths: false,
@@ -317,7 +322,7 @@ fn cmd_sweep(args: &[String]) -> i32 {
         // links consistent), at a smaller bound: such arenas keep nodes whose payload is gone
         if prop == "C01" || prop == "C10" || prop == "C07" {
             let (bn, ba) = if tier == "quick" { (3, 4) } else { (3, 5) };
-            let fb = free::explore(bn, ba, pl.judge.target, threads(), Some(deadline), true);
+            let fb = free::explore(bn, ba, pl.judge.target, threads(), Some(stage_deadline()), true);
             eprintln!(
                 "[{prop} {tier}] model-free closure with panicking destructors ({bn},{ba}): states={} transitions={} exhaustive={} violations={} {:.1}s",
                 fb.states, fb.transitions, fb.exhaustive, fb.violations.len(), fb.wall_s
@@ -328,7 +333,7 @@ fn cmd_sweep(args: &[String]) -> i32 {
             }
             free_counts = (fb.states, fb.transitions);
         }
-        let fr = free::explore(n, a, pl.judge.target, threads(), Some(deadline), false);
+        let fr = free::explore(n, a, pl.judge.target, threads(), Some(stage_deadline()), false);
         eprintln!(
             "[{prop} {tier}] model-free closure ({n},{a}): states={} transitions={} exhaustive={} violations={} {:.1}s{}",
             fr.states, fr.transitions, fr.exhaustive, fr.violations.len(), fr.wall_s,
@@ -377,7 +382,7 @@ fn cmd_sweep(args: &[String]) -> i32 {
             judge: pl.judge.clone(),
             inits: vec![init],
             threads: threads(),
-            deadline: Some(deadline),
+            deadline: Some(stage_deadline()),
             state_cap: 40_000_000,
             seed: seed(),
             validate_paths: true,
@@ -447,6 +452,16 @@ fn cmd_sweep(args: &[String]) -> i32 {
                 extra_unknown += emit_simple("C13", "with_capacity|capacity|-|too-small", &format!("Arena::with_capacity({k}).capacity() = {}", a0.capacity()), &known, json!({"engine": "sweep"}));
             }
         }
+        {
+            // Arena::default() is a newly created arena too
+            let r = explore::explore(&mk(Init::Default), &known);
+            let same = r.digests == base.digests && r.states == base.states && r.transitions == base.transitions;
+            caps.push(json!({"default": true, "same_digest_stream_as_new": same, "states": r.states}));
+            if !same {
+                extra_unknown += emit_simple("C13", "default|behaviour|-|differs-from-new", &format!("exploring from Arena::default() gives a different digest stream than from Arena::new() at bounds ({n},{a})"), &known, json!({"engine": "sweep"}));
+            }
+            reports.push(r);
+        }
         for k in [0usize, 1, 5, 64] {
             let a0: indextree::Arena<payload::Payload> = indextree::Arena::with_capacity(k);
             let r = explore::explore(&mk(Init::WithCapacity(k)), &known);
@@ -465,12 +480,15 @@ fn cmd_sweep(args: &[String]) -> i32 {
     if prop == "C17" {
         // calls that unwind from the middle (a payload destructor panics) and calls documented to panic
         // leave the same arena / give the same outcome in every build
-        let fb = free::explore(3, if tier == "quick" { 4 } else { 5 }, pl.judge.target, threads(), Some(deadline), true);
+        let fb = free::explore(3, if tier == "quick" { 4 } else { 5 }, pl.judge.target, threads(), Some(stage_deadline()), true);
         let edge: Vec<String> = vec![
             ops::guarded(|| { let mut a: indextree::Arena<payload::Payload> = indextree::Arena::new(); a.new_node(payload::Payload(1)); a.reserve(usize::MAX); a.capacity() > 0 }).map(|b| format!("returned {b}")).unwrap_or_else(|m| format!("panicked: {m}")),
             ops::guarded(|| { let mut a: indextree::Arena<payload::Payload> = indextree::Arena::new(); a.reserve(isize::MAX as usize / 8); a.capacity() > 0 }).map(|b| format!("returned {b}")).unwrap_or_else(|m| format!("panicked: {m}")),
             ops::guarded(|| { let a: indextree::Arena<payload::Payload> = indextree::Arena::with_capacity(usize::MAX); a.capacity() > 0 }).map(|b| format!("returned {b}")).unwrap_or_else(|m| format!("panicked: {m}")),
         ];
+        for f in judges::c17_par_big() {
+            extra_unknown += emit_simple("C17", &format!("big-arena|{}", f.sig), &format!("arena of 100 000 slots, every third removed: {}", f.detail), &known, json!({"engine": "sweep", "part": "par_iter"}));
+        }
         let (dg, grew) = deep::id_digest(if tier == "quick" { 70_000 } else { 140_000 });
         let pool = rayon::ThreadPoolBuilder::new().num_threads(threads()).build().unwrap();
         let ppr = pool.install(|| if tier == "quick" { pp::run_with(5, 3, 2, 10) } else { pp::run_with(6, 4, 2, 12) });
@@ -851,6 +869,11 @@ fn cmd_readers(args: &[String]) -> i32 {
             }
         }
     }
+    if cfg!(feature = "it-par") {
+        for f in judges::c17_par_big() {
+            unknown += emit_simple("C18", &format!("big-arena|{}", f.sig), &format!("arena of 100 000 slots, every third removed: {}", f.detail), &known, json!({"engine": "readers", "part": "par_iter"}));
+        }
+    }
     // ---- real threads: shuttle DFS (exhaustive over yield points) and a free-running pass ----
     let mut shuttle_schedules = 0u64;
     #[cfg(feature = "threads")]
@@ -1112,7 +1135,7 @@ fn cmd_deep(args: &[String]) -> i32 {
     let mut window_labels = Vec::new();
     let mut idh = json!(null);
     let (mut idh_steps, mut idh_paths) = (0u64, 0u64);
-    let cap_s: u64 = arg(args, "--cap-s").and_then(|s| s.parse().ok()).unwrap_or(if q { 45 } else { 1500 });
+    let cap_s: u64 = arg(args, "--cap-s").and_then(|s| s.parse().ok()).unwrap_or(if q { 600 } else { 1500 });
     let deadline = Instant::now() + Duration::from_secs(cap_s);
     // the same judge configuration and alphabet as the property's sweep (lenient links, round trip…)
     let base_plan = plan(&prop, &tier);
@@ -1140,7 +1163,7 @@ fn cmd_deep(args: &[String]) -> i32 {
                     judge: judge.clone(),
                     inits,
                     threads: threads(),
-                    deadline: Some(deadline),
+                    deadline: Some(Instant::now() + Duration::from_secs(cap_s)),
                     state_cap: 40_000_000,
                     seed: seed(),
                     validate_paths: true,
@@ -1202,7 +1225,7 @@ fn cmd_deep(args: &[String]) -> i32 {
                 judge: judge.clone(),
                 inits: vec![Init::New],
                 threads: threads(),
-                deadline: Some(deadline),
+                deadline: Some(Instant::now() + Duration::from_secs(cap_s)),
                 state_cap: 40_000_000,
                 seed: seed(),
                 validate_paths: true,
